@@ -209,6 +209,8 @@ pub struct ExecExtra {
     pub net_script: Vec<Option<crate::net::NetFault>>,
     /// do not pass --force-create although the output exists (the clone must refuse)
     pub no_force: bool,
+    /// --http-retry-count (HTTP only)
+    pub retries: u32,
 }
 
 /// `presented`: the bytes actually served / stored as the archive (a corrupted copy)
@@ -235,7 +237,7 @@ pub fn execute_with(f: &Fam, presented: Option<&[u8]>, extra: &ExecExtra) -> Obs
                 let _ = std::fs::remove_file("a.cba");
             });
         }
-        let mut opts = CloneOpts { http: f.http, seed_output: f.seed_output, verify_output: f.verify_output, buffers: f.buffers, verbose: f.verbose, verify_header: extra.verify_header.clone(), ..Default::default() };
+        let mut opts = CloneOpts { http: f.http, seed_output: f.seed_output, verify_output: f.verify_output, buffers: f.buffers, verbose: f.verbose, verify_header: extra.verify_header.clone(), retries: if f.http { extra.retries } else { 0 }, ..Default::default() };
         let mut stdin_data = None;
         for (i, (_, data)) in f.seeds.iter().enumerate() {
             if f.stdin_at == Some(i) {
